@@ -229,12 +229,12 @@ func anyStrings(v any) []string {
 // shardWriter writes trace records round-robin into <base>.<k> files (one TLC process per shard)
 // and the matching replay records into <base>.replay.<k> (same line number = same trace).
 type shardWriter struct {
-	files   []*os.File
-	bufs    []*bufio.Writer
-	rfiles  []*os.File
-	rbufs   []*bufio.Writer
-	counts  []int
-	next    int
+	files  []*os.File
+	bufs   []*bufio.Writer
+	rfiles []*os.File
+	rbufs  []*bufio.Writer
+	counts []int
+	next   int
 }
 
 func newShardWriter(base string, n int) *shardWriter {
